@@ -85,6 +85,19 @@ func run(sc *Scenario, path []string, convBin string) (res result) {
 			return
 		}
 		nViews := len(w.Views)
+		// C07 at service level: delivering a merge result must not change what a fresh view shows
+		mergeBefore, mergeApplied := "", false
+		if i == len(path)-1 && ev == "step:merge" {
+			if j := w.Parked("merge"); j != nil && j.Gate == "done" {
+				v := w.Mgr.GetView()
+				d, derr := ViewDigest(&v, false)
+				v.Release()
+				w.Mgr.Status()
+				if derr == nil {
+					mergeBefore, mergeApplied = d, true
+				}
+			}
+		}
 		if err := w.Apply(ev); err != nil {
 			if errors.Is(err, ErrJobStuck) && i == len(path)-1 {
 				res.viol = append(res.viol, V{"C09", "c09.job-never-completes", err.Error()})
@@ -96,6 +109,17 @@ func run(sc *Scenario, path []string, convBin string) (res result) {
 		}
 		if strings.HasPrefix(ev, "api:") {
 			pc++
+		}
+		if mergeApplied {
+			v := w.Mgr.GetView()
+			d, derr := ViewDigest(&v, false)
+			v.Release()
+			w.Mgr.Status()
+			if derr != nil {
+				res.viol = append(res.viol, V{"C07", "c07.service-merge-unreadable", "after the merge result was delivered a fresh view cannot be read: " + derr.Error()})
+			} else if d != mergeBefore {
+				res.viol = append(res.viol, V{"C07", "c07.service-merge-changed-visible-streams", fmt.Sprintf("delivering the result of a merge changed what a fresh view shows:\n--- before\n%s\n--- after\n%s", mergeBefore, d)})
+			}
 		}
 		if len(w.Views) > nViews && i == len(path)-1 {
 			res.viol = append(res.viol, CheckViewComplete(w, w.Views[len(w.Views)-1])...)
